@@ -138,3 +138,17 @@ Definition status_ok (st : list N) (pending_in_slot : N) : bool :=
 (* the statuses the model predicts: the answered requests are a prefix of the requested ones *)
 Definition model_status (s : hstate) : list N :=
   repeat 1 (List.length (h_answered s)) ++ repeat 0 (List.length (responses_slot (h_slot s))).
+
+(* what the hook reports of the slot: (kind, metadata version, peers version, routes configured,
+   partial routes, number of responses, hints as (address, is_up)) *)
+Definition view (slot : option mupdate) : N * N * N * bool * list N * N * list (N * bool) :=
+  match slot with
+  | None => (0, 0, 0, false, [], 0, [])
+  | Some u =>
+      let hs := map (fun ah => (fst ah, match snd ah with HUp => true | HDown => false end)) (mu_hints u) in
+      match mu_changes u with
+      | None => (1, 0, 0, false, [], 0, hs)
+      | Some (Partial rs p) => (2, 0, match p with Some x => x | None => 0 end, false, rs, 0, hs)
+      | Some (Full md rs) => (3, md_version md, md_peers md, md_routes md, [], N.of_nat (List.length rs), hs)
+      end
+  end.
